@@ -3,10 +3,10 @@ CONSTANTS
   Vouchers = {"va", "vb"}
   AmtClasses = {"1", "2", "zero", "garbage", "neg"}
   RecvClasses = {"user", "invalid", "blocked", "hexsender"}
-  NatMax = 2
-  BackDenoms = {"va", "vb"}
+  NatMax = 1
+  BackDenoms = {"va"}
   HookReturnsAck = TRUE
 INVARIANTS AckAlwaysCommitted SuccessAcked Backed NonNegative
 PROPERTIES SettledOnce RefundExact
-CONSTRAINT Bound
+CONSTRAINT BoundSmall
 CHECK_DEADLOCK FALSE
